@@ -13,7 +13,7 @@ ap.add_argument('--props', default='')
 args = ap.parse_args()
 mutants = json.load(open(os.path.join(HERE, 'mutants.json')))
 if args.only:
-    mutants = [m for m in mutants if args.only in m['name']]
+    mutants = [m for m in mutants if any(o in m['name'] for o in args.only.split(','))]
 if args.props:
     ps = set(args.props.split(','))
     mutants = [m for m in mutants if m['prop'] in ps]
